@@ -24,6 +24,11 @@ def floors(tier):
     return {'plans_checked': 1500, 'len:catalog_forms': 6, 'containers_seen': 30, 'len:step_kinds': 10, 'planning_rejections': 20}
 
 
+def ceilings(tier):
+    # fractions of all evaluations; the unchanged tree stays below about two thirds of each
+    return {'planning_rejections': 0.13, 'internal_error_is_C09': 0.01}
+
+
 def is_step(x):
     return hasattr(x, 'step_num') and any(c.__name__ == 'PlanStep' for c in type(x).__mro__)
 
